@@ -86,6 +86,9 @@ type SolverSet struct {
 	CrossChk bool // re-ask unsat answers to a second solver
 	CrossDis int
 	CrossN   int
+	inLemma    bool
+	lemmaCache map[string]bool
+	LemmaN     int
 }
 
 func NewSolverSet(quickMs, hardMs int) *SolverSet {
@@ -165,7 +168,11 @@ func (s *SolverSet) Check(asserts []*Term, wantModel bool) (Result, map[string]*
 		s.Stats.CacheHits++
 		return r, nil, "cache"
 	}
-	live2 := elimDiv(live)
+	if m, ok := s.cachedSatModel(key); ok && wantModel { // models_c12.go
+		s.Stats.CacheHits++
+		return Sat, m, "cache"
+	}
+	live2 := elimDiv(append(append([]*Term{}, live...), s.productLemmas(live)...))
 	script, vars := Script(live2)
 	ft := features(live2)
 	start := time.Now()
@@ -196,6 +203,9 @@ func (s *SolverSet) Check(asserts []*Term, wantModel bool) (Result, map[string]*
 	s.Stats.BySolver[who]++
 	if res != Unknown {
 		s.cache[key] = res
+	}
+	if res == Sat && wantModel {
+		s.rememberSatModel(key, model) // models_c12.go
 	}
 	if s.DumpDir != "" && (res == Unknown || d > 5*time.Second) {
 		os.WriteFile(fmt.Sprintf("%s/q%d-%s.smt2", s.DumpDir, s.Stats.Queries, res), []byte(script+"(check-sat)\n"), 0o644)
